@@ -61,8 +61,26 @@ func vfGenAlternation(r *vu.Rng) []string {
 			g.doPushStream(id)
 		}
 	}
+	// sometimes a MORE urgent stream becomes ready every 2nd or 3rd Pop (one frame pushed just before it)
+	urgent, period := 0, 2+r.Intn(2)
+	if u > 0 && r.Chance(1, 3) {
+		urgent = g.nextID
+		g.nextID += 2
+		g.add("open %d 0 %d %d", urgent, r.Intn(u), r.Intn(2))
+	}
 	rounds := 6 + r.Intn(14)
 	for k := 0; k < rounds; k++ {
+		if urgent != 0 {
+			if k%period == 0 {
+				g.tag++
+				g.add("hdr %d %d", urgent, g.tag)
+			}
+			g.add("pop")
+			if r.Chance(1, 10) {
+				g.doPushStream(ids[r.Intn(len(ids))])
+			}
+			continue
+		}
 		// 0, 1, 2 or 3 control frames before the next stream pop (one-for-one interleaving is the common case)
 		nc := []int{0, 1, 1, 1, 2, 3}[r.Intn(6)]
 		for j := 0; j < nc; j++ {
